@@ -60,7 +60,7 @@ def run(prop, seed, run_rules, only=None):
     rnd = random.Random("%s-%s" % (prop, seed))
     # a seeded edit is owed by the property its expected key belongs to; listed under another property it is only run there as
     # a benign-or-reported probe when it is that property's own (an entry's `expect` names one rule instance of one property)
-    mutants = [e for e in entries if e.get("expect") and e["expect"].split("/")[0] == prop]
+    mutants = [e for e in entries if e.get("expect") and (e["expect"].split("/")[0] == prop or (e["expect"] == "?" and e["props"][0] == prop))]
     benign = [e for e in entries if not e.get("expect")]
     if len(mutants) + len(benign) > MAX_PER_RUN and only is None:
         nb = min(len(benign), 3)
